@@ -29,13 +29,48 @@ Fixpoint tape_okb (rk : nat) (tape : list (list Q)) (fs : list (mat Q)) : bool :
   | _, _ => false
   end.
 
+Definition zts_eqb : list (tensor Z) -> list (tensor Z) -> bool := list_eqb zt_eqb.
+Definition ztk_eqb (a b : tensor Z * list (mat Z)) : bool := zt_eqb (fst a) (fst b) && list_eqb zmat_eqb (snd a) (snd b).
+Definition qtk_close (a b : tensor Q * list (mat Q)) : bool :=
+  qt_close ATOL RTOL (fst a) (fst b) && list_eqb qmat_close (snd a) (snd b).
+Fixpoint tk_tape_okb (sh : list nat) (tape : list (list Q)) (fs : list (mat Q)) : bool :=
+  match sh, tape, fs with
+  | [], [], [] => true
+  | n :: sh', sc :: t', A :: f' => norm_okb n sc A && tk_tape_okb sh' t' f'
+  | _, _, _ => false
+  end.
+Definition opt_close (a b : option (mat Q)) : bool :=
+  match a, b with None, None => true | Some x, Some y => qmat_close x y | _, _ => false end.
+Definition slice_close (a b : mat Q * option (mat Q)) : bool := qmat_close (fst a) (fst b) && opt_close (snd a) (snd b).
+(* contract of a complete SVD answer: U diag(s) Vh = X *)
+Definition svd_okb (X : mat Q) (usv : mat Q * list Q * mat Q) : bool :=
+  let '(U, s, Vh) := usv in qmat_close (matmul Qops U (scale_rows Qops s Vh)) X.
+Fixpoint svds_okb (full : list bool) (Xs : list (mat Q)) (tapes : list (mat Q * list Q * mat Q)) : bool :=
+  match full, Xs, tapes with
+  | [], [], [] => true
+  | b :: f', X :: x', t :: t' => (if b then svd_okb X t else true) && svds_okb f' x' t'
+  | _, _, _ => false
+  end.
+
 Inductive body :=
 | ZDense (w : list Z) (fs : list (mat Z)) (expected : tensor Z)
 | ZFlip (w : list Z) (fs : list (mat Z)) (mode : nat) (expected : res (list Z * list (mat Z)))
 | ZPerm (p : list nat) (w : list Z) (fs : list (mat Z)) (expected : res (list Z * list (mat Z)))
 | ZModeDot (w : list Z) (fs : list (mat Z)) (x : operand (F:=Z)) (mode : nat) (keep_dim : bool)
            (expected : res (list Z * list (mat Z)))
-| QNorm (tape : list (list Q)) (w : list Q) (fs : list (mat Q)) (expected : list Q * list (mat Q)).
+| QNorm (tape : list (list Q)) (w : list Q) (fs : list (mat Q)) (expected : list Q * list (mat Q))
+| ZTTDense (ring : bool) (cores : list (tensor Z)) (expected : tensor Z)
+| ZPad (cores : list (tensor Z)) (npad : nat) (pb : bool) (expected : res (list (tensor Z)))
+| ZTkDense (core : tensor Z) (fs : list (mat Z)) (expected : tensor Z)
+| ZTkDot (core : tensor Z) (fs : list (mat Z)) (x : operand (F:=Z)) (mode : nat) (keep_dim : bool)
+         (expected : res (tensor Z * list (mat Z)))
+| QTkNorm (tape : list (list Q)) (core : tensor Q) (fs : list (mat Q)) (expected : tensor Q * list (mat Q))
+| QPf2Norm (tape : list (list Q)) (w : list Q) (A B C : mat Q) (expected : list Q * list (mat Q))
+| ZPf2Slice (w : list Z) (A B C : mat Z) (Ps : list (mat Z)) (i : nat) (expected : mat Z)
+| ZDecomp (w : list Z) (A B C : mat Z) (Ps : list (mat Z)) (Ls : list (option (mat Z))) (expected : res (list (mat Z)))
+| QFromCP (Qm Rm : mat Q) (w : list Q) (A B C : mat Q) (expected : list Q * list (mat Q) * list (mat Q))
+| QCompress (slices : list (mat Q)) (thr : Q) (max_rank : option nat) (tapes : list (mat Q * list Q * mat Q))
+            (full : list bool) (expected : list (mat Q * option (mat Q))).
 
 Definition agree_body (b : body) : bool :=
   match b with
@@ -45,6 +80,29 @@ Definition agree_body (b : body) : bool :=
   | ZModeDot w fs x m kd e => res_eqb zcp_eqb (cp_mode_dot Zops w fs x m kd) e
   | QNorm tape w fs e =>
       tape_okb (length w) tape (norm_inputs Qops w fs) && qcp_close (cp_normalize Qops tape w fs) e
+  | ZTTDense ring cores e => zt_eqb (if ring then tr_to_tensor Zops cores else tt_to_tensor Zops cores) e
+  | ZPad cores npad pb e => res_eqb zts_eqb (pad_tt_rank Zops cores npad pb) e
+  | ZTkDense core fs e => zt_eqb (tucker_to_tensor Zops core fs) e
+  | ZTkDot core fs x m kd e => res_eqb ztk_eqb (tucker_mode_dot Zops core fs x m kd) e
+  | QTkNorm tape core fs e =>
+      tk_tape_okb (shape core) tape fs && qtk_close (tucker_normalize Qops tape core fs) e
+  | QPf2Norm tape w A B C e =>
+      tape_okb (length w) tape (norm_inputs Qops w [A; B; C]) &&
+      qcp_close (fst (parafac2_normalise Qops tape w A B C [])) e
+  | ZPf2Slice w A B C Ps i e => zmat_eqb (pf2_slice Zops w A B C Ps i) e
+  | ZDecomp w A B C Ps Ls e =>
+      match svd_decompress Zops w A B C Ps Ls, e with
+      | Ok (_, _, ps), Ok e' => list_eqb zmat_eqb ps e'
+      | Err, Err => true
+      | _, _ => false
+      end
+  | QFromCP Qm Rm w A B C e =>
+      qmat_close (matmul Qops Qm Rm) B &&
+      (let '(w', fs', ps') := from_cp Qm Rm w A B C in
+       let '(ew, efs, eps) := e in
+       qv_close w' ew && list_eqb qmat_close fs' efs && list_eqb qmat_close ps' eps)
+  | QCompress slices thr mr tapes full e =>
+      svds_okb full slices tapes && list_eqb slice_close (svd_compress Qops slices thr mr tapes) e
   end.
 
 Definition case := (nat * body)%type.
